@@ -58,6 +58,14 @@ pub(crate) fn typecheck_num_bin_op(lhs: NumTy, op: TypingBinOp, rhs: &TyBasic) -
         return None;
     };
 
+    // `int * x` is not a number when `x` is a string, a list or a tuple.
+    if matches!(
+        (&lhs, op, &rhs),
+        (NumTy::Int, TypingBinOp::Mul, NumRhsTy::Any)
+    ) {
+        return Some(Ty::any());
+    }
+
     let op = match op {
         TypingBinOp::Add
         | TypingBinOp::Sub
